@@ -280,6 +280,13 @@ class Contour(BaseObject):
         # the reversing pen.
         reversePen = ReverseContourPointPen(otherContour)
         self.drawPoints(reversePen)
+        # the reversing pen drops the trailing off curve points
+        # of an open contour: free their identifiers
+        identifiers = self.identifiers
+        keptIdentifiers = set(point.identifier for point in otherContour._points)
+        for point in self._points:
+            if point.identifier is not None and point.identifier not in keptIdentifiers:
+                identifiers.discard(point.identifier)
         # clear the points in this contour
         self._clear(postNotification=False)
         # set the points back into this contour
